@@ -262,6 +262,7 @@ QUICK = [
     dict(wf="fork", backend="slurm", accounting=True, hashing=False, sels=(None, ["B"]), depth=1),
     dict(wf="chain", backend="sge", accounting=True, hashing=False, sels=(None,), depth=1),
     dict(wf="fork", backend="lsf", accounting=True, hashing=True, sels=(None,), depth=1),
+    dict(wf="shortcut", backend="sge", accounting=True, hashing=False, sels=(None, ["X"]), depth=1, few=True),
 ]
 THOROUGH = [dict(wf=wf, backend=be, accounting=acct, hashing=h, sels=(None, ["B"], ["C"]), depth=1)
             for wf in ("fork", "chain") for be, acct in (("slurm", True), ("slurm", False), ("sge", True), ("lsf", True)) for h in (False, True)] + \
@@ -277,6 +278,8 @@ def run(ctx):
         meta = dict(wf=cfg["wf"], backend=cfg["backend"], accounting=cfg["accounting"], hashing=cfg["hashing"])
         n = len(CW.WORKFLOWS[cfg["wf"]]().targets)
         its = items(n, ctx.tier == "quick" or cfg.get("quick_items"))
+        if cfg.get("few"):
+            its = [it for it in its if sum(j is not None for j in it[1]) <= 1][::3]
         if n == 5:
             its = [it for it in its if it[0].count("older") <= 1 and sum(j is not None for j in it[1]) <= 1]
         ctx.pmap(me, "states_batch", its, chunk=4, meta=meta, sels=cfg["sels"], depth=cfg["depth"])
